@@ -47,6 +47,7 @@ class FakeStdout(anyio.abc.ByteReceiveStream):
                     c.sim.probe("read_capped_at_max_bytes")
                 c.sim.rec("proc", "stdout-read", len(piece))
                 c.reads.append(piece)
+                c._transport_poll_eof()
                 return piece
             if c.out_eof:
                 c.sim.rec("proc", "stdout-eof", None)
@@ -150,9 +151,32 @@ class FakeChild:
         self.lines_in: List[bytes] = []
         # stderr: cfg 'stderr_chatter' = bytes of diagnostics the child writes before it answers anything.  If the parent gave it a pipe
         # and nobody reads that pipe, the child blocks in write(2) once the pipe (64 KiB) is full and never gets to answer.
+        # descriptor model of asyncio's subprocess transport.  The transport moves the child's output from the pipe into the
+        # StreamReader on its own, but pauses once more than 2 x 64 KiB sit there unread; while paused it never sees the pipe's EOF,
+        # so after the child died the read end stays open (nobody finishes the transport) unless the rest is read or the process
+        # object is closed (anyio Process.aclose() closes the pipe transports).
+        self.stdout_eof_seen_by_transport = False
+        self.process_aclosed = False
         self.stderr_disposition = (kwargs or {}).get("_stderr_disposition", "inherited-or-file")
         self.stderr_read_by_parent = False
         self.stderr_merged = 0
+
+    READER_HIGH_WATER = 2 * 65536
+
+    def unread_output(self) -> int:
+        return sum(len(p) for p in self.out_pieces)
+
+    def _transport_poll_eof(self):
+        """sticky: once the child is gone (or closed its stdout) and what is still unread fits below the reader's high-water mark,
+        the transport reads on to EOF and disconnects the pipe"""
+        if self.out_eof and not self.stdout_eof_seen_by_transport and self.unread_output() <= self.READER_HIGH_WATER:
+            self.stdout_eof_seen_by_transport = True
+            self.sim.rec("proc", "stdout-pipe-disconnected", None)
+
+    @property
+    def stdout_fd_open(self) -> bool:
+        """is the parent's read end of the child's stdout still an open descriptor?"""
+        return not (self.stdout_eof_seen_by_transport or self.process_aclosed)
 
     # ---- stdout side (child -> parent) -----------------------------------------------
     def write_stdout(self, pieces):
@@ -166,6 +190,7 @@ class FakeChild:
     def close_stdout(self):
         self.out_eof = True
         self.sim.rec("child", "close-stdout", None)
+        self._transport_poll_eof()
         self._wake_out()
 
     def _wake_in(self):
@@ -290,6 +315,7 @@ class FakeChild:
         self.sim.rec("child", "exit", code)
         self.out_eof = True
         self.stdin_broken = True
+        self._transport_poll_eof()
         self._wake_out()
         self._wake_in()
         # the child watcher notices one loop iteration later
@@ -362,12 +388,24 @@ class FakeProcess:
         self.child.signal(f"SIG{sig}")
 
     async def aclose(self) -> None:
-        await self._stdin.aclose()
-        await self._stdout.aclose()
-        with anyio.CancelScope(shield=True):
-            if not self.child.reaped:
-                self.child.signal("SIGKILL")
-            await self.wait()
+        # anyio's Process.aclose(): close the three pipe transports (releases the descriptors; a child blocked on a full pipe gets
+        # SIGPIPE), then wait for the child; if that wait is interrupted, close the transport (kills the child) and wait again
+        with anyio.CancelScope(shield=True) as scope:
+            await self._stdin.aclose()
+            await self._stdout.aclose()
+            self.child.process_aclosed = True
+            self.child.sim.rec("proc", "process-aclose", None)
+            if self.child.alive:
+                self.child.out_eof = True  # further output goes nowhere
+            scope.shield = False
+            try:
+                await self.wait()
+            except BaseException:
+                scope.shield = True
+                if not self.child.reaped and self.child.alive:
+                    self.child.signal("SIGKILL")
+                await self.wait()
+                raise
 
     async def __aenter__(self):
         return self
